@@ -88,7 +88,7 @@ class _LogTap(logging.Handler):
 
   def emit(self, record):
     w = self.world
-    if w is None:
+    if w is None or '[c03]' not in record.name:
       return
     try:
       msg = record.getMessage()
@@ -176,7 +176,15 @@ def setup():
       return self._st
 
     def Open(self):
-      self.world.opens.append(self.nid)
+      w = self.world
+      w.opens.append(self.nid)
+      if w.raise_on_open:
+        w.raise_on_open = False
+        raise ChanOpenError('opening channel %d failed synchronously' % self.nid)
+      if w.open_fail_every and (self.nid + 1) % w.open_fail_every == 0:
+        ar = AsyncResult()          # the open fails (asynchronously reported): _OnOpenNodeComplete's error path
+        ar.set_exception(ChanOpenError('opening channel %d failed' % self.nid))
+        return ar
       if self.world.shared:          # shared connections are re-opened after the last holder closed them
         self.world.events.append(['open', self.nid])
         if self._st == 4:
@@ -197,7 +205,11 @@ def setup():
 
     def AsyncProcessRequest(self, sink_stack, msg, stream, headers):
       sink_stack.Push(self, None)
-      self.world.received.append(self.nid)
+      w = self.world
+      w.received.append(self.nid)
+      if w.failfast and self._st == 4 and w.on_failfast is not None:
+        # a closed transport fails the request at once, inside the call
+        w.on_failfast(self)
 
     def AsyncProcessResponse(self, sink_stack, context, stream, msg):
       sink_stack.AsyncProcessResponse(stream, msg)
@@ -206,6 +218,12 @@ def setup():
     pass
 
   class ChanCloseError(Exception):
+    pass
+
+  class ChanOpenError(Exception):
+    pass
+
+  class CallerBase(BaseException):     # like gevent.Timeout: not an Exception
     pass
 
   class Caller(ClientMessageSink):
@@ -226,7 +244,9 @@ def setup():
         h, self.hook = self.hook, None
         h()
       if self.raises:
-        self.raises = False
+        kind_, self.raises = self.raises, False
+        if kind_ == 'base':
+          raise CallerBase('the caller was interrupted while handling the reply')
         raise CallerError('the caller failed while handling the reply')
 
   class RecStack(ClientMessageSinkStack):
@@ -299,7 +319,7 @@ def setup():
             MessageProperties=MessageProperties, HeapBalancerSink=HeapBalancerSink,
             ApertureBalancerSink=ApertureBalancerSink, Message=Message, MethodReturnMessage=MethodReturnMessage,
             TimeoutError=TimeoutError, Chan=Chan, Caller=Caller, RecStack=RecStack, Provider=Provider,
-            CallerError=CallerError, ChanCloseError=ChanCloseError, Member=Member, ServerSet=ServerSet, rnd=rnd, tap=tap, heapmod=heapmod, stubq=stubq, BalProv=BalProv,
+            CallerError=CallerError, CallerBase=CallerBase, ChanOpenError=ChanOpenError, ChanCloseError=ChanCloseError, Member=Member, ServerSet=ServerSet, rnd=rnd, tap=tap, heapmod=heapmod, stubq=stubq, BalProv=BalProv,
             FakeClock=FakeClock, ClientTimeoutSink=ClientTimeoutSink, Deadline=Deadline,
             SharedSinkProvider=SharedSinkProvider)
 
@@ -313,6 +333,11 @@ class World(object):
     self.close_fails = bool(case.get('close_fails')) and case.get('kind', 'heap') != 'aperture_real'
     self.raise_on_close = False
     self.on_close = None
+    self.raise_on_open = False
+    self.open_fail_every = int(case.get('open_fail_every') or 0)
+    self.failfast = bool(case.get('failfast')) and case.get('kind', 'heap') != 'aperture_real'
+    self.on_failfast = None
+    self.dctx = None
     self.events = []
     self.opens = []
     self.received = []
@@ -386,19 +411,31 @@ _HANGS = [0]
 
 def run_impl(case):
   """Watchdog around the driver: a balancer that loops forever (e.g. a cyclic _downq list) becomes an
-  observation {'hang': True} instead of a hung check (SIGALRM; the loops under test do not yield)."""
+  observation {'hang': True} instead of a hung check.  The loops under test do not yield, so SIGALRM is used;
+  the timer repeats, and when it fires inside another greenlet (the notification deliverer, a hub callback)
+  the exception is thrown into the greenlet that runs the case - raised elsewhere it would be swallowed and
+  the case would go on (and could spin again with the one-shot timer spent)."""
   import signal
+  import greenlet as _greenlet
   setup()
+  main_g = _greenlet.getcurrent()
 
   def on_alarm(_sig, _frm):
-    raise ImplHang()
+    exc = ImplHang()
+    if _greenlet.getcurrent() is not main_g and not main_g.dead:
+      main_g.throw(exc)
+      return
+    raise exc
   try:
     old = signal.signal(signal.SIGALRM, on_alarm)
   except ValueError:          # not in the main thread: no watchdog
     return _run_impl(case)
-  signal.setitimer(signal.ITIMER_REAL, 5.0 if _HANGS[0] < 2 else 1.0)
+  signal.setitimer(signal.ITIMER_REAL, 5.0 if _HANGS[0] < 2 else 1.0, 1.0)
   try:
-    return _run_impl(case)
+    try:
+      return _run_impl(case)
+    finally:
+      signal.setitimer(signal.ITIMER_REAL, 0)
   except ImplHang:
     _HANGS[0] += 1
     _S['tap'].world = None
@@ -468,30 +505,69 @@ def _run_impl(case):
       c[r['nid']] = c.get(r['nid'], 0) + 1
     return c
 
-  def do_dispatch(opi, extra=None):
+  def finish_dispatch(d):
+    """Registers the request of dispatch context d and records the Dispatch step (once)."""
+    d['recorded'] = True
+    nid = d['rec'][0]
+    rid = state['nrid']
+    state['nrid'] += 1
+    req = {'rid': rid, 'nid': nid, 'stack': d['stack'], 'caller': d['caller'],
+           'timer': stubq.actions[d['n0']] if len(stubq.actions) > d['n0'] else None}
+    out_reqs.append(req)
+    d['nid'], d['req'] = nid, req
+    record(['dispatch'], {'t': 'sent', 'nid': nid, 'ep': epval(d['msg'].properties.get(_S['MessageProperties'].Endpoint)),
+                          'rid': rid, 'nrecv': len(d['rec'])}, d['opi'], d['extra'])
+
+  def on_failfast(ch):
+    """The chosen channel is closed and fails the request inline (inside AsyncProcessRequest): the dispatch is
+    recorded at that instant (load counted, release pushed), then the completion."""
+    d = w.dctx
+    if d is None or d['recorded']:
+      return
+    ex = dict(d['extra'] or {})
+    ex['failed_fast_inline'] = True
+    d['extra'] = ex
+    finish_dispatch(d)
+    req = d['req']
+    out_reqs.remove(req)
+    done_reqs.append(req)
+    d['caller'].hook = None
+    # with retry: the caller dispatches again from inside its failure handler (Complete, then Dispatch)
+    do_complete(req, 7, 'error+reenter' if d.get('retry') else 'error', d['opi'])
+  w.on_failfast = on_failfast
+
+  def do_dispatch(opi, extra=None, retry_on_inline_failure=False):
     stack = _S['RecStack']()
     caller = _S['Caller']()
     stack.Push(caller, None)
     msg = _S['Message']()
-    del w.received[:]
-    n0 = len(stubq.actions)
+    rec = []
+    outer_rec, outer_ctx = w.received, w.dctx
+    w.received = rec
+    d = {'stack': stack, 'caller': caller, 'msg': msg, 'n0': len(stubq.actions), 'opi': opi, 'extra': extra,
+         'recorded': False, 'rec': rec, 'nid': None, 'retry': retry_on_inline_failure}
+    w.dctx = d
     if head is not bal:
       import time as _time
       msg.properties[_S['Deadline'].KEY] = _time.time() + 1e6
+    if retry_on_inline_failure:
+      # a caller that retries at once, from inside its failure handler, when the request fails inside the call
+      caller.hook = lambda: do_dispatch(opi, {'reentrant': True, 'retry_after_inline_failure': True})
     try:
       head.AsyncProcessRequest(stack, msg, None, {})
     except Exception as e:
-      record(['dispatch'], {'t': 'exc', 'exc': type(e).__name__}, opi, extra)
+      caller.hook = None
+      w.received, w.dctx = outer_rec, outer_ctx
+      if not d['recorded']:
+        record(['dispatch'], {'t': 'exc', 'exc': type(e).__name__}, opi, extra)
       return None
-    if w.received:
-      nid = w.received[0]
-      rid = state['nrid']
-      state['nrid'] += 1
-      out_reqs.append({'rid': rid, 'nid': nid, 'stack': stack, 'caller': caller,
-                       'timer': stubq.actions[n0] if len(stubq.actions) > n0 else None})
-      record(['dispatch'], {'t': 'sent', 'nid': nid, 'ep': epval(msg.properties.get(_S['MessageProperties'].Endpoint)),
-                            'rid': rid, 'nrecv': len(w.received)}, opi, extra)
-      return nid
+    caller.hook = None
+    w.received, w.dctx = outer_rec, outer_ctx
+    if d['recorded']:
+      return d['nid']
+    if rec:
+      finish_dispatch(d)
+      return d['nid']
     err = None
     if caller.got:
       m = caller.got[0]
@@ -521,8 +597,8 @@ def _run_impl(case):
               'delivered': len(caller.got) - before})
       done['rec'] = True
 
-    if mode == 'raise' and base != 'ctx':
-      caller.raises = True
+    if mode in ('raise', 'raiseb') and base != 'ctx':
+      caller.raises = 'base' if mode == 'raiseb' else True
     elif mode == 'reenter' and base != 'ctx':
       def hook():
         rec_complete({'reentrant_followup': True})
@@ -544,7 +620,7 @@ def _run_impl(case):
           req['timer']['action']()
       else:
         stack.AsyncProcessResponseMessage(_S['MethodReturnMessage'](error=_S['TimeoutError']()))
-    except _S['CallerError']:
+    except (_S['CallerError'], _S['CallerBase']):
       raised = True
     except Exception as e:
       caller.hook, caller.raises = None, False
@@ -572,21 +648,37 @@ def _run_impl(case):
     if cur['label'] is not None and not cur['recorded']:
       cur['recorded'] = True
       record(cur['label'], {'t': 'applied', 'exc': None}, cur['opi'], {'closed_with_requests_in_flight': len(mine)})
+    first_ = True
     for req in mine:
       if req in out_reqs:
         out_reqs.remove(req)
         done_reqs.append(req)
-        do_complete(req, 1, 'error', cur['opi'] if cur['opi'] is not None else -1)
+        # close_retry: the caller of the first failed request retries at once, from inside Close()
+        do_complete(req, 1, 'error+reenter' if (first_ and case.get('close_retry')) else 'error',
+                    cur['opi'] if cur['opi'] is not None else -1)
+        first_ = False
   w.on_close = on_close
 
-  def notify(kind, ep, opi, noaux=False, close_raises=False):
+  def flush_hub(opi):
+    """Real aperture only: continuations of earlier Open()s (pending endpoints cleared, expansion after a failed
+    open) run now, as a step of their own, so that what they do is not attributed to the next notification."""
+    gevent.sleep(0)
+    gevent.sleep(0)
+    if w.events:
+      record(['hub'], {'t': 'hub'}, opi)
+
+  def notify(kind, ep, opi, noaux=False, close_raises=False, open_raises=False):
+    if case.get('kind') == 'aperture_real':
+      flush_hub(opi)
     if not noaux and state['init']:
       cur.update(label=[kind, ep], opi=opi, recorded=False)
     w.raise_on_close = bool(close_raises)
+    w.raise_on_open = bool(open_raises)
     q.put((kind, ep, noaux))
     prog['enq'] += 1
     settle()
     w.raise_on_close = False
+    w.raise_on_open = False
     applied = prog['done'] == prog['enq']
     pre_recorded = cur['recorded']
     cur.update(label=None, opi=None, recorded=False)
@@ -609,11 +701,49 @@ def _run_impl(case):
       ref_members[ep] = True
     else:
       ref_members.pop(ep, None)
+    if open_raises and prog['exc'] == 'ChanOpenError':
+      # the scripted synchronous failure of Open(): raised to the provider; the member has joined all the same
+      record([kind, ep], {'t': 'applied' if applied else 'blocked', 'exc': None, 'open_raised': True}, opi)
+      prog['exc'] = None
+      return
     record([kind, ep], {'t': 'applied' if applied else 'blocked', 'exc': prog['exc']}, opi)
     prog['exc'] = None
 
+  twin = {'bal': None, 'ss': None, 'n': 0}
+
+  def twin_step(kind, ep):
+    """A second, independent balancer instance in the same process (own provider, own channels) gets traffic and
+    membership changes of its own: nothing of it may show in the instance under test."""
+    b2 = twin['bal']
+    if b2 is None:
+      return
+    try:
+      if kind == 'dispatch':
+        st2 = _S['RecStack']()
+        st2.Push(_S['Caller'](), None)
+        b2.AsyncProcessRequest(st2, _S['Message'](), None, {})
+      elif kind == 'join':
+        twin['ss'].on_join(_S['Member'](ep + 50, False, False, True))
+      elif kind == 'leave':
+        twin['ss'].on_leave(_S['Member'](ep + 50, False, False, True))
+    except Exception:
+      pass
+    twin['n'] += 1
+
   dl = None
   try:
+    if case.get('twin'):
+      w2 = World({'st0': 2, 'epobj': True})
+      ss2 = _S['ServerSet'](w2)
+      ss2.snapshot = [50, 51, 52]
+      ss2.release.set()
+      cls2 = _S['HeapBalancerSink']
+      props2 = cls2.Builder._defaults.copy()
+      props2['server_set_provider'] = ss2
+      b2 = cls2(_S['Provider'](w2), cls2.Builder.PARAMS_CLASS(**props2), {_S['SinkProperties'].Label: 'decoy'})
+      b2.Open()
+      settle()
+      twin['bal'], twin['ss'] = b2, ss2
     bal.Open()
     dl = gevent.spawn(deliverer)
     settle()
@@ -623,12 +753,24 @@ def _run_impl(case):
       if ap_real and not case.get('slow_open'):
         # let completed Open()s of expanded nodes be noticed (pending endpoints cleared); with slow_open the
         # continuations of Open() only run at the next notification: several expansions fall into one open
-        gevent.sleep(0)
-        gevent.sleep(0)
+        flush_hub(opi)
       if k in ('join', 'leave'):
         if not state['init']:
           pending_notifs.append((k, mapep(op[1])))
         notify(k, mapep(op[1]), opi)
+        twin_step(k, op[1])
+      elif k == 'join_openraise':
+        # a join whose channel raises from Open() (synchronously, inside _AddSink)
+        if not state['init']:
+          pending_notifs.append(('join', mapep(op[1])))
+        notify('join', mapep(op[1]), opi, open_raises=(state['init'] and not ap_real))
+      elif k == 'dispatch_retry':
+        # the caller retries once from inside its failure handler if the request fails inside the call
+        if not state['init']:
+          state['skipped'] += 1
+          continue
+        do_dispatch(opi, None, retry_on_inline_failure=True)
+        twin_step('dispatch', None)
       elif k == 'leave_closefail':
         # a leave during which closing the member's channel raises
         if not state['init']:
@@ -664,10 +806,11 @@ def _run_impl(case):
             ref_members.pop(e, None)
         record(['init', order], {'t': 'applied' if prog['done'] == prog['enq'] else 'blocked', 'exc': prog['exc']}, opi)
         prog['exc'] = None
-      elif not state['init'] and k in ('dispatch', 'complete', 'recomplete', 'fault', 'burst', 'isolate'):
+      elif not state['init'] and k in ('dispatch', 'dispatch_retry', 'complete', 'recomplete', 'fault', 'burst', 'isolate'):
         state['skipped'] += 1
       elif k == 'dispatch':
         do_dispatch(opi)
+        twin_step('dispatch', None)
       elif k == 'complete':
         _k, sel, kk, jseed, kind = op
         if not out_reqs:
@@ -766,7 +909,14 @@ def _run_impl(case):
   finally:
     _S['tap'].world = None
     w.on_close = None
+    w.on_failfast = None
     w.raise_on_close = False
+    w.raise_on_open = False
+    if twin['bal'] is not None:
+      try:
+        twin['bal'].Close()
+      except Exception:
+        pass
     try:
       if dl is not None:
         dl.kill(block=False)
@@ -775,7 +925,7 @@ def _run_impl(case):
       settle()
     except Exception:
       pass
-  return {'labels': labels, 'steps': steps, 'skipped': state['skipped'], 'opens': w.opens}
+  return {'labels': labels, 'steps': steps, 'skipped': state['skipped'], 'opens': w.opens, 'twin_ops': twin['n']}
 
 
 # -------------------------------------------------------------------------------------------------
@@ -1305,7 +1455,7 @@ def to_coq(case, obs):
   exp = []
   kept = []
   for lb, st in zip(labels, steps):
-    if lb[0] == 'noaux':     # raises before anything is touched: not a label of the model
+    if lb[0] in ('noaux', 'hub'):     # noaux raises before anything is touched: not a label of the model
       continue
     kept.append(lb)
     d = st.get('diag') or {}
@@ -1320,7 +1470,7 @@ def to_coq(case, obs):
 # generators
 # -------------------------------------------------------------------------------------------------
 KINDS = ['reply', 'reply', 'error', 'timeout', 'ctx', 'reply+raise', 'error+raise', 'reply+reenter', 'timeout+reenter',
-         'timeout+raise']
+         'timeout+raise', 'reply+raiseb']
 PROFILES = {
     # weights: dispatch, complete-any, complete-min, complete-max, recomplete, setchan, fault, join, leave, burst
     'load':   dict(dispatch=10, c_any=3, c_min=1, c_max=1, rec=0.3, chan=1.0, fault=0.1, join=0.4, leave=0.4, burst=0.0),
@@ -1407,6 +1557,7 @@ def gen_aperture_real(r, pid='C03'):
     case['epobj'] = True
   if r.random() < (0.5 if pid == 'C04' else 0.3):
     case['slow_open'] = True
+  case['open_fail_every'] = r.choice([0, 0, 3, 4])     # expansion whose channel fails to open (-> expands again)
   return case
 
 
@@ -1433,7 +1584,7 @@ def gen_shared(r, pid):
           'epobj': r.random() < 0.7, 'ops': ops}
 
 
-def gen_case(r, pid, size_hint=None, aperture_share=0.15):
+def gen_case(r, pid, size_hint=None, aperture_share=0.15, tier='quick'):
   sh = SHARES[pid]
   x_ = r.random()
   if x_ < sh['ap_real']:
@@ -1456,6 +1607,8 @@ def gen_case(r, pid, size_hint=None, aperture_share=0.15):
     snap = []
   ops.append(['init', snap, r.randrange(0, 1000)])
   nsteps = r.choice([20, 40, 60, 80, 120, 200])
+  if tier == 'thorough' and r.random() < 0.02:
+    nsteps = r.choice([600, 1200])     # long-lived balancer: many operations on the same object
   prof = PROFILES[r.choice(MIX[pid])]
   left = 0
   for _ in range(nsteps):
@@ -1466,16 +1619,28 @@ def gen_case(r, pid, size_hint=None, aperture_share=0.15):
     ops.append(_one_op(r, prof, universe))
   ops.append(['burst'])
   case = {'kind': 'aperture' if r.random() < aperture_share else 'heap',
-          'st0': r.choice([2, 2, 2, 1, 4]), 'ops': ops}
+          'st0': r.choice([2, 2, 2, 2, 1, 4, 3]), 'ops': ops}
   if pid == 'C05' and r.random() < 0.15:
     ops.append(['isolate', r.randrange(0, 64)])
   if r.random() < 0.7:
     case['epobj'] = True           # endpoints are objects; every notification carries a fresh, equal one
   first = next(i for i, o in enumerate(ops) if o[0] == 'init') + 1
+  if r.random() < 0.25:
+    case['failfast'] = True        # a closed channel fails the request inline, inside AsyncProcessRequest
+  if r.random() < 0.2:
+    case['twin'] = True            # a second, independent balancer instance lives (and works) in the same process
+  case['open_fail_every'] = r.choice([0, 0, 0, 2, 3, 5])   # every n-th channel's Open() fails (asynchronously reported)
+  if r.random() < 0.3:
+    for i_, o_ in enumerate(ops):
+      if i_ >= first and o_[0] == 'dispatch' and r.random() < 0.15:
+        ops[i_] = ['dispatch_retry']   # the caller retries from inside its failure handler on an inline failure
+      elif i_ >= first and o_[0] == 'join' and r.random() < 0.3:
+        ops[i_] = ['join_openraise', o_[1]]   # the new channel's Open() raises synchronously
   if r.random() < {'C03': 0.25, 'C04': 0.3, 'C05': 0.35}[pid]:
     # channels whose Close() fails their in-flight requests synchronously (as the real transports do); pattern:
     # every member's channel drops, a request marks them down, a member leaves while marked down and loaded
     case['close_fails'] = True
+    case['close_retry'] = r.random() < 0.5   # the caller of a request failed by Close() retries from inside it
     for _ in range(r.choice([1, 2, 3])):
       pat = [['dispatch']] * r.choice([0, 2, len(universe)])
       pat += [['setchan', 'member', k_, 4] for k_ in range(len(universe))]
@@ -1542,7 +1707,7 @@ def gen_cases(pid, tier, seed, n_quick, n_thorough):
   out = []
   for i in range(n):
     r = C.case_rng(seed, pid, i)
-    out.append(gen_case(r, pid))
+    out.append(gen_case(r, pid, tier=tier))
   return out
 
 
@@ -1582,6 +1747,20 @@ def stats(cases, obs):
       c['cases_with_fresh_endpoint_objects_per_notification'] += 1
     if cs.get('close_fails'):
       c['cases_with_Close_failing_inflight_requests'] += 1
+    if cs.get('twin'):
+      c['cases_with_second_balancer_instance_in_process'] += 1
+      c['second_instance_operations'] += o.get('twin_ops', 0)
+    if cs.get('failfast'):
+      c['cases_with_channels_failing_requests_inline'] += 1
+    if cs.get('open_fail_every'):
+      c['cases_with_failing_channel_opens'] += 1
+    for st_ in o['steps']:
+      if st_.get('failed_fast_inline'):
+        c['dispatch_failed_fast_inline_by_closed_channel'] += 1
+      if st_.get('retry_after_inline_failure'):
+        c['dispatch_retry_from_inside_failure_handler'] += 1
+      if st_['res'].get('open_raised'):
+        c['join_during_which_Open_raised'] += 1
     c['leave_closed_channel_with_requests_in_flight_reentrant_completions'] += sum(
         1 for st_ in o['steps'] if st_.get('closed_with_requests_in_flight'))
     c['leave_during_which_Close_raised'] += sum(1 for st_ in o['steps'] if st_['res'].get('close_raised'))
